@@ -18,6 +18,7 @@ const ModulePath = "github.com/BlackVectorOps/semantic_firewall/v3"
 
 // World holds the loaded program, the contracts and the global SMT declarations.
 type World struct {
+	effects map[*ssa.Function]*Effects // inferred write sets (effects.go)
 	Repo      string
 	Prog      *ssa.Program
 	Pkgs      []*packages.Package
